@@ -127,6 +127,14 @@ func call(name string, raw uint64) (val uint64, ok bool, panicked bool) {
 				}
 				fld := map[string]string{"readTXTStatus": "Sts", "readTXTErrorCode": "ErrorCode", "readDMAProtectedRange": "Dpr"}[parts[1]]
 				st = reflect.ValueOf(rs).FieldByName(fld)
+			case "ParseTXTRegs": // fields assigned in ParseTXTRegs itself: TxtReset from the TXT.ESTS byte at 0x8
+				img := make([]byte, 0x1000)
+				img[0x8] = byte(raw)
+				rs, err := tools.ParseTXTRegs(img)
+				if err != nil {
+					return
+				}
+				st = reflect.ValueOf(rs)
 			case "ReadACMStatus":
 				img := make([]byte, 0x1000)
 				binary.LittleEndian.PutUint64(img[0x328:], raw)
@@ -522,6 +530,14 @@ func decodersDisagree(img []byte, regs registers.Registers) string {
 			pair{"ERRORCODE.MajorErrorCode", uint64(r.MajorErrorCode()), uint64(rs.ErrorCode.MajorErrorCode)}, pair{"ERRORCODE.SoftwareSource", b2u(r.SoftwareSource()), b2u(rs.ErrorCode.SoftwareSource)},
 			pair{"ERRORCODE.MinorErrorCode", uint64(r.MinorErrorCode()), uint64(rs.ErrorCode.MinorErrorCode)}, pair{"ERRORCODE.Type1Reserved", uint64(r.Type1Reserved()), uint64(rs.ErrorCode.Type1Reserved)},
 			pair{"ERRORCODE.Valid", b2u(r.Valid()), b2u(rs.ErrorCode.ValidInvalid)}, pair{"ERRORCODE.raw", uint64(r.Raw()), uint64(rs.ErrorCodeRaw)})
+	}
+	if r, ok := registers.FindTXTErrorStatus(regs); ok {
+		ps = append(ps, pair{"ESTS.Reset / TxtReset", b2u(r.Reset()), b2u(rs.TxtReset)})
+	}
+	if r, ok := registers.FindTXTPublicKey(regs); ok {
+		for i := 0; i < 4; i++ {
+			ps = append(ps, pair{fmt.Sprintf("PUBLIC.KEY bytes %d..%d", 8*i, 8*i+7), binary.LittleEndian.Uint64(r[8*i : 8*i+8]), rs.PublicKey[i]})
+		}
 	}
 	if r, ok := registers.FindTXTDMAProtectedRange(regs); ok {
 		d := r.DMAProtectedRange()
